@@ -38,6 +38,8 @@ func ifaceNilEdges(fn *ssa.Function, field string, isNil bool) []eng.Edge {
 func runC17(c *eng.Ctx) {
 	p := c.P
 
+	c.Rule("R17.6", "K4")
+	ruleSealedValueIsTheCallers(c)
 	// ---- R17.1 seal before store
 	c.Rule("R17.1", "K2")
 	if fn := c.Fn(msgLoopKey); fn != nil {
@@ -311,10 +313,10 @@ func runC17(c *eng.Ctx) {
 			oc := opens[0].(*ssa.Call)
 			errNil := eng.CmpEdges(fn, func(x ssa.Value) bool { y, ok := x.(*ssa.Extract); return ok && y.Tuple == oc && y.Index == 1 }, eng.NilConst, eng.EQ)
 			for _, r := range eng.Returns(fn) {
-				if len(r.Results) == 2 && eng.NilConst(r.Results[1]) {
+				if len(eng.RetVals(r)) == 2 && eng.NilConst(eng.RetVals(r)[1]) {
 					g, w := eng.GuardedBy(fn, r, errNil)
 					c.Check(g && len(errNil) > 0, "decryptData success return", c.Pos(r), "reached only when gcm.Open returned no error (authentication tag verified)", "decryptData can return success although gcm.Open failed: "+w.String())
-					e, ok := r.Results[0].(*ssa.Extract)
+					e, ok := eng.RetVals(r)[0].(*ssa.Extract)
 					c.Check(ok && e.Tuple == oc && e.Index == 0, "decryptData returns Open's plaintext", c.Pos(r), "the plaintext returned is Open's result", "the value returned is not gcm.Open's result")
 				}
 			}
@@ -330,7 +332,7 @@ func runC17(c *eng.Ctx) {
 			cc := cs[0].(*ssa.Call)
 			errNil := eng.CmpEdges(fn, func(x ssa.Value) bool { y, ok := x.(*ssa.Extract); return ok && y.Tuple == cc && y.Index == 1 }, eng.NilConst, eng.EQ)
 			for _, r := range eng.Returns(fn) {
-				if len(r.Results) == 2 && eng.NilConst(r.Results[1]) {
+				if len(eng.RetVals(r)) == 2 && eng.NilConst(eng.RetVals(r)[1]) {
 					g, w := eng.GuardedBy(fn, r, errNil)
 					c.Check(g && len(errNil) > 0, "Read success requires "+callee[strings.LastIndex(callee, ".")+1:], c.Pos(r), "success return only after err == nil", "Read can return success although "+callee+" failed: "+w.String())
 				}
